@@ -67,13 +67,15 @@ impl TypeCastExpression {
     ///
     /// Some expressions require parentheses to ensure correct operator precedence when type cast.
     pub fn needs_parentheses(expression: &Expression) -> bool {
-        matches!(
-            expression,
+        match expression {
             Expression::Binary(_)
-                | Expression::Unary(_)
-                | Expression::TypeCast(_)
-                | Expression::If(_)
-        )
+            | Expression::Unary(_)
+            | Expression::TypeCast(_)
+            | Expression::If(_) => true,
+            // a negative number is written with a leading `-`, which reads as a unary minus
+            Expression::Number(number) => number.is_written_with_minus_sign(),
+            _ => false,
+        }
     }
 
     /// Returns a mutable reference to the last token for this type cast expression,
